@@ -417,7 +417,7 @@ pub fn run(ctx: &Ctx) -> Report {
     run_enumerated(&mut sec, enumerated(), ctx.workers, check, |_, _| "c18:serialisation".into());
     rep.sections.push(sec);
     let mut sec = Section::new(&format!("generated[{}]", ctx.variant), "commands with boundary-biased, byte-asymmetric parameters; raw slices of length 0..=40");
-    run_generated(&mut sec, ctx.seed, ctx.cases(150_000, 2_000_000), ctx.workers, strategy, check, |_, _| "c18:serialisation".into());
+    run_generated(&mut sec, ctx.seed, ctx.cases(400_000, 8_000_000), ctx.workers, strategy, check, |_, _| "c18:serialisation".into());
     rep.sections.push(sec);
     if ctx.tier == Tier::Thorough {
         let mut sec = Section::new(&format!("all-address-pairs[{}]", ctx.variant), "all 2^32 (start,end) pairs for SetColumnAddress and SetPageAddress (serialisation only)");
